@@ -24,7 +24,7 @@ func runC08(c *Ctx, r *Run) {
 	r.Rule("DEP-3", "refresh polynomials have a zero constant: the constant argument is an unwritten fresh NewScalar() on the refresh path; peers' constants are checked")
 	r.Rule("DEP-4", "the refreshed secret share depends on the previous share and all received sub-shares; refreshed public shares depend on the previous public shares and the summed polynomial")
 	r.Rule("ALIAS-1", "refresh does not mutate the previous epoch's key-material objects in place")
-	r.Rule("START-S2", "the CMP refresh session is bound to the current config")
+	r.Rule("START-S2", "the CMP refresh, sign, presign and online-sign sessions are bound to the whole current config (a signer on another epoch computes another tag)")
 
 	// ---- DEP-3
 	type site struct{ rel, typ, method string }
@@ -285,7 +285,7 @@ func runC08(c *Ctx, r *Run) {
 	sub := NewRun("tmp", r.Tier)
 	runC09(c, sub)
 	for _, o := range sub.Obs {
-		if o.Rule == "START-S2" && strings.Contains(o.Key, "keygen.Start") {
+		if o.Rule == "START-S2" && (strings.Contains(o.Key, "keygen.Start") || strings.HasSuffix(o.Key, "aux Config")) {
 			r.Check("START-S2", o.Key, o.Pos, o.Held, o.Desc, o.Detail)
 		}
 	}
@@ -323,5 +323,5 @@ func runC08(c *Ctx, r *Run) {
 		r.Unresolved("DEP-4", "protocols/frost/keygen.(*round3).Finalize")
 	}
 	r.Require("DEP-4", 12)
-	r.Require("START-S2", 1)
+	r.Require("START-S2", 4)
 }
